@@ -265,6 +265,14 @@ class SymTensor:
 
     __hash__ = object.__hash__
 
+    def __getattr__(self, name):
+        # a tensor method the model does not implement: undecided, never an AttributeError of the code under test
+        if name.startswith("__") and name.endswith("__"):
+            raise AttributeError(name)
+        if name in ("representation", "_args", "to_dense", "evaluate_kernel", "_memoize_cache"):
+            raise AttributeError(name)  # duck-typing probes of the library (hasattr) must see "not an operator"
+        raise Unsupported(f"torch.Tensor.{name} is not modelled")
+
     # -- value access -------------------------------------------------------------------------
     def at(self, *idx):
         """z3 term of the entry at view index idx (ints / SymInts / z3 Ints)"""
